@@ -20,4 +20,12 @@ func init() {
 		"Decided: DTLS 1.2 client: for certificate suites every path to the key-derivation commit passes a successful ServerKeyExchange signature check over (local random, remote random, curve, public key) against the presented chain, a successful chain verification unless InsecureSkipVerify, and the VerifyPeerCertificate callback when set; a certificate suite without a Certificate message cannot advance. DTLS 1.2 server: a present CertificateVerify must verify over ClientHello..ClientKeyExchange, a certificate without CertificateVerify cannot advance, the verified flag is true only after a successful VerifyClientCert, and the extracted decision table over ClientAuth x certificate x verified x suite equals the policy (exhaustive over the finite table). DTLS 1.3: hasFinished / hasCertificateVerify flags set only after the checked verifications, commit only after hasFinished.",
 		"Correctness of x509 / signature verification (library), expiry and time, PSK knowledge (covered through the Finished comparison of C04).",
 		ruleClientServerAuth12, ruleServerClientAuth12, ruleProtectedFlight13)
+	register("C05",
+		"Decided: (1) no function reachable from prepareIncomingPacket invokes the replay accept closure, emits, alerts or closes; the closure is invoked only by the record consumers, which run only after prepareIncomingPacket returned ok; a rejected record yields (no outcome, nil error). (2) DTLS 1.2: header parse, future-epoch bound, replay check, then decryption (required for epoch != 0), CID presence before and CID equality after decryption on every success return; failure returns carry the zero state. DTLS 1.3: open before the replay marker, marker before hand-off. (3) every Decrypt returns plaintext only after its AEAD Open / MAC comparison (and padding check) succeeded; only ChangeCipherSpec passes through. (4) epoch-0 application data is refused and the only payload sender on the delivery channel is that consumer. (5) AAD/MAC input layouts cover epoch, sequence, type, version, length and CID (shared with C10).",
+		"That returned bytes equal written bytes (AEAD/MAC correctness is the library's); replay-window semantics.",
+		ruleReceiveOrder, ruleDecryptAuth, ruleEpochZeroAppData, ruleRecordLayouts)
+	register("C06",
+		"Decided: no delivery path bypasses the replay check (every success exit of the prepare functions passes the checked replay marker, and the commit closure handed to the consumers is that marker's); detectors are built with Conn.replayProtectionWindow, which comes from the resolved configuration (configured value if positive, else 64), and with the protocol's maximum sequence number; the future-epoch bound precedes the lazily grown per-epoch detector table; the DTLS 1.3 highest accepted sequence number advances only inside the commit closure.",
+		"The window semantics themselves (exactly-once within W) live in pion/transport/replaydetector, outside the repository; DTLS 1.3 sequence-number reconstruction arithmetic; arrival orders.",
+		ruleReceiveOrder, ruleReplayWindow)
 }
